@@ -8,7 +8,7 @@ RULES = [
     dict(rule="R5", kind="re", dotall=True, pat=r"rkyv::to_bytes::<_, 256>\(&self\.store\)\.map_err\(\|e\| \{.*?\}\)\?", repl="(match rkyv_to_bytes_index(&self.store) { Ok(b) => b, Err(_) => return Err(io_err(IoKind::Other)) })",
          why="rkyv::to_bytes(..).map_err(..)? -> stub + explicit match"),
     dict(rule="R6", kind="lit", old="fs::write(&tmp_path, &bytes)?;", new="fs_write(fs, &tmp_path, bytes.as_slice())?;", why="std::fs::write -> power-loss model"),
-    dict(rule="R6", kind="lit", old="fs::File::open(&tmp_path)?.sync_all()?;", new="fs_open(fs, &tmp_path)?.sync_all(fs)?;", why="File::open + sync_all -> power-loss model"),
+    dict(rule="R6", kind="re", pat=r"fs::File::open\(&(tmp_path|self\.path)\)\?\.sync_all\(\)\?;", repl=r"fs_open(fs, &\1)?.sync_all(fs)?;", why="File::open + sync_all -> power-loss model"),
     dict(rule="R6", kind="lit", old="fs::rename(&tmp_path, &self.path)?;", new="fs_rename(fs, &tmp_path, &self.path)?;", why="std::fs::rename -> power-loss model"),
     dict(rule="R6", kind="lit", old="sync_parent_dir(&self.path)?;", new="fs_sync_dir(fs)?;", min=0, why="sync of the parent directory -> power-loss model (one directory)"),
 ] + IOERR_RULES
@@ -18,7 +18,7 @@ M_RULES = [
     dict(rule="R5", kind="re", dotall=True, pat=r"rkyv::to_bytes::<_, 256>\(map\)\.map_err\(\|e\| \{.*?\}\)\?", repl="(match rkyv_to_bytes_markers(map) { Ok(b) => b, Err(_) => return Err(io_err(IoKind::Other)) })",
          why="rkyv::to_bytes(..).map_err(..)? -> stub + explicit match"),
     dict(rule="R6", kind="lit", old="fs::write(&tmp_path, &bytes)?;", new="fs_write(fs, &tmp_path, bytes.as_slice())?;", why="std::fs::write -> power-loss model"),
-    dict(rule="R6", kind="lit", old="fs::File::open(&tmp_path)?.sync_all()?;", new="fs_open(fs, &tmp_path)?.sync_all(fs)?;", why="File::open + sync_all -> power-loss model"),
+    dict(rule="R6", kind="re", pat=r"fs::File::open\(&(tmp_path|self\.path)\)\?\.sync_all\(\)\?;", repl=r"fs_open(fs, &\1)?.sync_all(fs)?;", why="File::open + sync_all -> power-loss model"),
     dict(rule="R6", kind="lit", old="fs::rename(&tmp_path, path)?;", new="fs_rename_str(fs, &tmp_path, path)?;", why="std::fs::rename -> power-loss model"),
     dict(rule="R6", kind="lit", old="super::index::sync_parent_dir(path)?;", new="fs_sync_dir(fs)?;", min=0, why="sync of the parent directory -> power-loss model (one directory)"),
 ] + IOERR_RULES
@@ -32,6 +32,7 @@ P_RULES = [
     dict(rule="R6", kind="re", pat=r"\.set_len\(", repl=".set_len(fs, ", min=0, why="ghost file system threaded"),
     dict(rule="R6", kind="re", pat=r"\.sync_all\(\)", repl=".sync_all(fs)", min=0, why="ghost file system threaded"),
     dict(rule="R9", kind="lit", old="path.to_string_lossy().into_owned()", new="path_to_string(&path)", min=0, why="PathBuf -> String stub"),
+    dict(rule="R6", kind="re", pat=r"(?<![\w.])sync_parent_dir\((&[\w.]+)\)", repl=r"fs_sync_parent_of(fs, \1)", min=0, why="a sync of the directory holding the given path -> power-loss model (durable only if that is the instance directory)"),
 ]
 P_SIG = [dict(pat=r"\(&self\)", repl="(&self, fs: &mut Fs)")] + IOERR_SIG
 
